@@ -33,6 +33,10 @@ func (b *byzActor) schedule() {
 	if b.kind == "silent" {
 		return
 	}
+	if b.kind == "hostile" {
+		b.cl.push(&event{at: time.Duration(20+b.cl.sched.Int(50)) * time.Millisecond, kind: evByz, fn: b.hostileAct})
+		return
+	}
 	b.cl.push(&event{at: time.Duration(20+b.cl.sched.Int(50)) * time.Millisecond, kind: evByz, fn: b.act})
 }
 
